@@ -602,6 +602,8 @@ func init() {
 		// Code keeps ONE variable `previous` (the previous OBV) and compares the closing
 		// with it: closing_i > OBV_{i-1} instead of closing_i > closing_{i-1}.
 		KF: mvAlways("KF-C01-obv-compares-obv"),
+		// comparing a price with a cumulative volume is not unit independent
+		KF18: mvAlways("KF-C18-obv-compares-obv"),
 	})
 
 	// Vpt: VPT_i = VPT_{i-1} + Volume_i * (c_i - c_{i-1}) / c_{i-1}, VPT_0 = 0.
